@@ -1,0 +1,88 @@
+//! Verification hooks (only built with `--cfg rpgp_rpgp_verif`).
+//!
+//! Thin public wrappers that let an external harness drive crate-private
+//! state machines directly. Nothing here changes library behaviour.
+
+use std::io;
+
+use digest::DynDigest;
+
+use crate::util::{fill_buffer, fill_buffer_bytes, NormalizingHasher};
+
+/// A "digest" that records every octet it is fed; `finalize` returns them.
+#[derive(Clone, Default)]
+pub struct RecordingDigest {
+    data: Vec<u8>,
+}
+
+impl DynDigest for RecordingDigest {
+    fn update(&mut self, data: &[u8]) {
+        self.data.extend_from_slice(data);
+    }
+
+    fn finalize_reset(&mut self) -> Box<[u8]> {
+        std::mem::take(&mut self.data).into_boxed_slice()
+    }
+
+    fn finalize_into(self, buf: &mut [u8]) -> Result<(), digest::InvalidBufferSize> {
+        if buf.len() != self.data.len() {
+            return Err(digest::InvalidBufferSize);
+        }
+        buf.copy_from_slice(&self.data);
+        Ok(())
+    }
+
+    fn finalize_into_reset(&mut self, out: &mut [u8]) -> Result<(), digest::InvalidBufferSize> {
+        if out.len() != self.data.len() {
+            return Err(digest::InvalidBufferSize);
+        }
+        out.copy_from_slice(&self.data);
+        self.data.clear();
+        Ok(())
+    }
+
+    fn reset(&mut self) {
+        self.data.clear();
+    }
+
+    fn output_size(&self) -> usize {
+        self.data.len()
+    }
+
+    fn box_clone(&self) -> Box<dyn DynDigest> {
+        Box::new(self.clone())
+    }
+}
+
+/// Feeds `chunks` one by one into a `NormalizingHasher` and returns the octets
+/// that reached the underlying digest, including whatever `done()` adds.
+pub fn normalizing_hasher_run(text_mode: bool, chunks: &[Vec<u8>]) -> Vec<u8> {
+    let mut h = NormalizingHasher::new(Box::new(RecordingDigest::default()), text_mode);
+    for c in chunks {
+        h.hash_buf(c);
+    }
+    h.done().finalize().into_vec()
+}
+
+/// `util::fill_buffer`
+pub fn util_fill_buffer<R: io::Read>(
+    source: R,
+    buffer: &mut [u8],
+    chunk_size: Option<usize>,
+) -> io::Result<usize> {
+    fill_buffer(source, buffer, chunk_size)
+}
+
+/// `util::fill_buffer_bytes`
+pub fn util_fill_buffer_bytes<R: io::BufRead>(
+    source: R,
+    buffer: &mut bytes::BytesMut,
+    len: usize,
+) -> io::Result<usize> {
+    fill_buffer_bytes(source, buffer, len)
+}
+
+/// `normalize_lines::normalize_lines`
+pub fn normalize_lines(s: &str, line_break: crate::line_writer::LineBreak) -> String {
+    crate::normalize_lines::normalize_lines(s, line_break).into_owned()
+}
